@@ -42,6 +42,21 @@ func init() {
 			_ = coilQ
 			_ = byteQ
 			js := reqJobs("VH_C01_encode", rng(0, 2001), rng(0, 260), nil)
+			// two requests encoded one after the other (state carried between encodings would show here)
+			for tcp := 0; tcp < 2; tcp++ {
+				for sel := 0; sel < 10; sel++ {
+					ps := ints(0)
+					switch sel {
+					case 6:
+						ps = ints(1, 9, 17)
+					case 7, 9:
+						ps = ints(2, 4)
+					}
+					for _, p := range ps {
+						js = append(js, sym.Job{Harness: "VH_C01_encode_twice", Params: map[string]int{"sel": sel, "tcp": tcp, "p": p}})
+					}
+				}
+			}
 			// the RTU trailer oracle is the library's CRC16; its premise "CRC16 is the Modbus CRC" (the subject of C03) is
 			// discharged in this run as well: table self-check, loop step lemma, base cases
 			js = append(js, sym.Job{Harness: "VH_C03_table_selfcheck", Params: map[string]int{}})
@@ -50,11 +65,11 @@ func init() {
 			return js
 		},
 		Bounds: map[string]string{
-			"quick":    "20 constructors; unit id, transaction id, addresses, quantities symbolic over their whole range; FC15: every coil count 0..2001 with symbolic coil values; FC16/FC23: every data length 0..260 bytes with symbolic contents",
+			"quick":    "20 constructors; unit id, transaction id, addresses, quantities symbolic over their whole range; FC15: every coil count 0..2001 with symbolic coil values; FC16/FC23: every data length 0..260 bytes with symbolic contents; plus, for every constructor, two requests (each with its own symbolic arguments, short payloads) encoded one after the other and the first one encoded again",
 			"thorough": "same as quick (the bound is the claim)",
 		},
 		Outside:   []string{"FC15 slices longer than 2001 coils and FC16/23 data longer than 260 bytes (rejected on length alone)", "FC6 data argument of a length other than 2 bytes"},
-		MinCovers: []string{"constructed", "constructor-rejects", "step", "whole"},
+		MinCovers: []string{"constructed", "constructor-rejects", "step", "whole", "second-constructed"},
 		TimeoutMS: 240000, // CRC step lemma: 2-5 s per query on an idle machine, margin for a loaded one
 		Stubs:     []string{"math/rand.Intn: arbitrary value in range (the transaction id is overwritten by a symbolic one)", "RTU trailer oracle is the real CRC16, tied to the specification in the same run by the CRC loop step lemma and base cases (as in C03)"},
 	})
